@@ -27,6 +27,7 @@ type nfChecker struct {
 	out     []nfViolation
 	creator string          // of the object being walked
 	all     map[string]bool // every position visited (when non-nil)
+	kinds   map[string]string // kind of the type at every position visited (when non-nil)
 }
 
 var bracketArgs = regexp.MustCompile(`\[.*$`)
@@ -66,6 +67,9 @@ func (c *nfChecker) typePos(t ast.Type, where string, top bool, inAllOf bool, de
 	}
 	if c.all != nil {
 		c.all[where] = true
+	}
+	if c.kinds != nil {
+		c.kinds[where] = string(t.Kind)
 	}
 	switch t.Kind {
 	case ast.KindDisjunction:
@@ -155,18 +159,25 @@ func blameNormalForm(lang languages.Language, schemas ast.Schemas, final []nfVio
 	out := map[string]string{}
 	defer func() { _ = recover() }()
 	type snap struct {
-		viol map[string]bool
-		all  map[string]bool
-		name string
+		viol  map[string]bool
+		all   map[string]bool
+		kinds map[string]string
+		name  string
+	}
+	kindAt := func(s snap, where string) string {
+		if k := s.kinds[where]; k != "" {
+			return k
+		}
+		return "-"
 	}
 	take := func(name string, s ast.Schemas) snap {
-		c := &nfChecker{lang: lang.Name(), all: map[string]bool{}}
+		c := &nfChecker{lang: lang.Name(), all: map[string]bool{}, kinds: map[string]string{}}
 		c.run(s)
 		v := map[string]bool{}
 		for _, x := range c.out {
 			v[x.Pred+"@"+x.Where] = true
 		}
-		return snap{v, c.all, name}
+		return snap{v, c.all, c.kinds, name}
 	}
 	var cur ast.Schemas = schemas.DeepCopy()
 	snaps := []snap{take("input", cur)}
@@ -199,13 +210,15 @@ func blameNormalForm(lang languages.Language, schemas ast.Schemas, final []nfVio
 			}
 			switch {
 			case lastOK >= 0 && lastOK+1 < len(snaps):
-				cause = "broken-by:" + snaps[lastOK+1].name
+				// with what the pass turned the type at that position from and into:
+				// one pass can break a predicate in several unrelated ways
+				cause = "broken-by:" + snaps[lastOK+1].name + "[" + kindAt(snaps[lastOK], v.Where) + ">" + kindAt(snaps[lastOK+1], v.Where) + "]"
 			case lastOK >= 0:
 				cause = "unknown" // holds at the end of the replica: the real chain differs
 			case j == 0:
-				cause = "never-established"
+				cause = "never-established[" + kindAt(snaps[len(snaps)-1], v.Where) + "]"
 			default:
-				cause = "created-violating-by:" + snaps[j].name
+				cause = "created-violating-by:" + snaps[j].name + "[" + kindAt(snaps[j], v.Where) + "]"
 			}
 		}
 		out[id] = cause
